@@ -1,11 +1,12 @@
 import Aiorpcx.Common.Hex
 import Aiorpcx.Common.RatIO
 import Aiorpcx.C20.Model
+import Aiorpcx.C20.Timed
 /-! Line-protocol driver for the C20 model.
     `R <current> <trt> <avg>`  → `<new>;<pre-round value>;<pinned new>;<pinned pre-round value>`
     `M <initial> <trt> <recalibrate_count> | op ...` small-step monitor (see below)
     `W <initial> <trt> <recalibrate_count> | op op ...` with ops `s<i>` (send), `d<i>:<taken>:<count>`
-       (done), `c<i>` (cancel a queued caller) → one record per op joined by ` | `:
+       (done), `f<i>` (the write failed: exit without a sample), `c<i>` (cancel a queued caller) → one record per op joined by ` | `:
        `<events>;h=<holders>;w=<queued>;T=<limit>;n=<len(_req_times)>` (events as in drv_c13) -/
 open Aiorpcx Aiorpcx.C20 Aiorpcx.RatIO
 
@@ -28,6 +29,7 @@ in order).
   `s<i>`  caller i reaches `async with` (acquire; admitted at once unless the semaphore is locked —
           `locked()` also counts woken tasks that have not run yet)
   `d<i>:<taken>:<count>`  holder i leaves: `finally` block (record, maybe recalibrate), `__aexit__`
+  `f<i>`  holder i leaves because its write failed: `__aexit__` only, nothing recorded
   `r<i>`  the woken caller i runs (must be the first woken task)
   `X<i>`  `cancel()` is called on caller i's task (takes effect on the semaphore at once if the
           caller is still blocked in `acquire()`)
@@ -45,6 +47,7 @@ inductive SOp where
   | resume (i : Nat)
   | cancel (i : Nat)
   | cancelCalled (i : Nat)
+  | fail (i : Nat)
 
 def parseSOp (s : String) : Option SOp :=
   match s.toList with
@@ -52,6 +55,7 @@ def parseSOp (s : String) : Option SOp :=
   | 'c' :: r => (String.ofList r).toNat?.map SOp.cancel
   | 'r' :: r => (String.ofList r).toNat?.map SOp.resume
   | 'X' :: r => (String.ofList r).toNat?.map SOp.cancelCalled
+  | 'f' :: r => (String.ofList r).toNat?.map SOp.fail
   | 'd' :: r =>
       match (String.ofList r).splitOn ":" with
       | [i, t, n] =>
@@ -75,10 +79,19 @@ def sstep (c : OCfg) (s : SS) : SOp → SS × List C13.Ev × Option Rat
         let pre := if times.length ≥ c.recalibrate then some (preRound s.st.T c.trt (avgOf times)) else none
         let o1 := record c ⟨s.st, s.times⟩ taken count
         let s1 : C13.Lim := { o1.lim with holders := o1.lim.holders.erase i }
-        if s1.V > s1.T then ({ s with st := { s1 with V := s1.V - 1 }, times := o1.times }, [], pre)
+        if s1.V > C13.retireBound s1 then ({ s with st := { s1 with V := s1.V - 1 }, times := o1.times }, [], pre)
         else
           let w := C13.release ⟨s1, s.woken, []⟩
           ({ s with st := w.st, woken := w.woken, times := o1.times }, [], pre)
+      else (s, [C13.Ev.bad], none)
+  | .fail i =>
+      -- `_send_message` raised: `__aexit__` without the `finally` block (nothing recorded)
+      if i ∈ s.st.holders then
+        let s1 : C13.Lim := { s.st with holders := s.st.holders.erase i }
+        if s1.V > C13.retireBound s1 then ({ s with st := { s1 with V := s1.V - 1 } }, [], none)
+        else
+          let w := C13.release ⟨s1, s.woken, []⟩
+          ({ s with st := w.st, woken := w.woken }, [], none)
       else (s, [C13.Ev.bad], none)
   | .resume i =>
       match s.woken with
@@ -123,6 +136,7 @@ def parseOOp (s : String) : Option OOp :=
   match s.toList with
   | 's' :: r => (String.ofList r).toNat?.map OOp.send
   | 'c' :: r => (String.ofList r).toNat?.map OOp.cancelWaiter
+  | 'f' :: r => (String.ofList r).toNat?.map OOp.sendFailed
   | 'd' :: r =>
       match (String.ofList r).splitOn ":" with
       | [i, t, n] =>
@@ -140,6 +154,33 @@ def go (c : OCfg) (o : Out) : List OOp → List String
   | [] => []
   | op :: ops => let r := ostep c o op; orecord r.1 r.2 :: go c r.1 ops
 
+/-! Timed mode: `T <initial> <trt> <recalibrate_count> <sent_request_timeout> | op ...` with ops
+`c<i>:<count>` (a caller reaches the limiter), `a<i>` (the peer's answer to i is delivered),
+`w<dt>` (time passes), `l` (connection lost) → the events, joined by ` `: `W<i>@<t>` written,
+`E<i>@<t>:<A|T|C>` the call ended (answered / TaskTimeout / cancelled). -/
+def parseTOp (s : String) : Option TOp :=
+  match s.toList with
+  | ['l'] => some .lose
+  | 'a' :: r => (String.ofList r).toNat?.map TOp.answer
+  | 'w' :: r => (parseRat (String.ofList r)).map TOp.wait
+  | 'c' :: r =>
+      match (String.ofList r).splitOn ":" with
+      | [i, n] =>
+          match i.toNat?, n.toNat? with
+          | some i, some n => some (TOp.call i n)
+          | _, _ => none
+      | _ => none
+  | _ => none
+
+def showKind : EndKind → String
+  | .answered => "A"
+  | .timedOut => "T"
+  | .cancelled => "C"
+
+def showTEv : TEv → String
+  | .written i t => s!"W{i}@{showRat t}"
+  | .ended i _ t k => s!"E{i}@{showRat t}:{showKind k}"
+
 def handle (line : String) : String :=
   match (line.splitOn " ").filter (· ≠ "") with
   | ["R", cur, trt, avg] =>
@@ -152,6 +193,12 @@ def handle (line : String) : String :=
       | some n, some trt, some rc, some ops =>
           if ops.isEmpty then "." else String.intercalate " | " (go ⟨trt, rc⟩ (oinit n) ops)
       | _, _, _, _ => "bad-op"
+  | "T" :: n :: trt :: rc :: tmo :: "|" :: ops =>
+      match n.toNat?, parseRat trt, rc.toNat?, parseRat tmo, ops.mapM parseTOp with
+      | some n, some trt, some rc, some tmo, some ops =>
+          let r := trun ⟨trt, rc⟩ tmo (tinit n) ops
+          if r.2.isEmpty then "." else String.intercalate " " (r.2.map showTEv)
+      | _, _, _, _, _ => "bad-op"
   | "M" :: n :: trt :: rc :: "|" :: ops =>
       match n.toNat?, parseRat trt, rc.toNat?, ops.mapM parseSOp with
       | some n, some trt, some rc, some ops =>
